@@ -61,6 +61,7 @@ ASSUMPTIONS = [
     'Engine(composite=c, initial_state=x) is not combined with a non-empty c.state (F21)',
 ]
 CASE_TIMEOUT = 30.0
+DRIFT_FACTOR = 2
 PARTS = ['processes', 'topology', 'steps', 'flow', 'state']
 RUN_TICKS = 3
 
